@@ -5,6 +5,7 @@
   Model: TmVerif/Monitor/Model.lean (`reevaluate`, exact token arithmetic in 1/SCALE tokens).
 -/
 import TmVerif.Monitor.Lemmas
+import TmVerif.Monitor.ZkLayer
 
 namespace TmVerif.Monitor
 
@@ -230,6 +231,29 @@ theorem C20_budget (ops : List Op) : Inv (runOps St.init ops) := by
   induction ops with
   | nil => intro s h; exact h
   | cons op ops ih => intro s h; exact ih _ (inv_step s op h)
+
+/-- **C20 (budget, ZooKeeper-level histories).**  The same invariant over histories told at the level
+    of ZooKeeper: monitor nodes written and deleted, the connection suspended or the session lost and
+    re-established any number of times, spurious watch events — through the real watch's
+    de-duplication (`Watch.getData`).  A re-connection never refills a budget: the state is the one of
+    the history with the re-connections erased (`zrun_st`). -/
+theorem C20_budget_zk (ops : List ZOp) : Inv (zrun { st := St.init } ops).st := by
+  rw [(zrun_st _ ops (zinv_init _)).1]
+  exact C20_budget _
+
+/-- **C20 (re-connection is silent).**  After any ZooKeeper-level history, a re-connection leaves the
+    monitor state — budgets included — exactly as it was. -/
+theorem C20_reconnect_silent (ops : List ZOp) :
+    (zstep (zrun { st := St.init } ops) .reconnect).st = (zrun { st := St.init } ops).st := by
+  have h := zstep_st (zrun { st := St.init } ops) .reconnect (zrun_st _ ops (zinv_init _)).2
+  simpa [ZOp.erase] using h.1
+
+/-- Not vacuous: a monitor spends its budget, the connection flaps twice, and the next evaluation
+    still finds the budget spent (no create call although instances are missing). -/
+example :
+    let z := zrun { st := St.init } [.put 1 2 .fifo, .other (.eval (fun _ => .ok)), .other (.eval (fun _ => .ok)),
+                                     .reconnect, .reconnect]
+    (reevaluate z.st (fun _ => .ok)).2.calls = [] ∧ (lookup 1 z.st.sched).getD [] = [] := by decide
 
 /-- **C20 (failures).** For one monitor: `NotFound`, `BadRequest` and `Validation` failures
     suspend it for `_DELAY_INTERVAL` without spending budget; any other failure changes nothing. -/
